@@ -95,6 +95,7 @@ class Lin32(LinCtx):
         self.div_facts = 0
         self.struct_splits = 0
         self.local_proofs = 0
+        self.depth_hist = {}
         self.full_proofs = 0
         self.full_budget = 6      # how many times one run may fall back to the full constraint set for a dropped carry
 
@@ -218,6 +219,7 @@ class Lin32(LinCtx):
                 self.queries += 1
                 if s.check() == z3.unsat:
                     self.local_proofs += 1
+                    self.depth_hist[d] = self.depth_hist.get(d, 0) + 1
                     return True
             return None
         finally:
